@@ -449,6 +449,19 @@ func sig(gs []gor) (string, bool) {
 	return strings.Join(u, " || "), blocked
 }
 
+// StableBlocked applies the deadlock rule to the current process: two goroutine dumps `wait`
+// apart; stable = the same lisk-engine/harness goroutines (by id) are parked in a blocking state at
+// identical frames in both. Returns the signature of the blocked frames, the verdict and a dump.
+func StableBlocked(wait time.Duration) (string, bool, string) {
+	d1 := allStacks()
+	time.Sleep(wait)
+	d2 := allStacks()
+	g1, g2 := parseGoroutines(d1), parseGoroutines(d2)
+	s1, b1 := sig(g1)
+	s2, b2 := sig(g2)
+	return s1, s1 == s2 && b1 && b2 && s1 != "" && identity(g1) == identity(g2), trimDump(d2)
+}
+
 // Watch runs fn under the deadlock rule. Returns true if fn returned. If it did not, the
 // case gets a deadlock violation (stable, all repo goroutines parked) or an inconclusive
 // mark; in both cases the process is considered wedged and exits after flushing, and the
